@@ -126,6 +126,68 @@ def work_preset(bins, preset, strings):
     return dict(n=len(strings), bad=bad)
 
 
+TPL_COMBOS = [
+    ("", dict(separator=".", lowercase=False, keep_zeros=False, max_length=None)),
+    ("preset='semver'", dict(separator=".", lowercase=False, keep_zeros=False, max_length=None)),
+    ("preset='dotted'", dict(separator=".", lowercase=False, keep_zeros=False, max_length=None)),
+    ("preset='pep440'", dict(separator=".", lowercase=True, keep_zeros=False, max_length=None)),
+    ("preset='lower_dotted'", dict(separator=".", lowercase=True, keep_zeros=False, max_length=None)),
+    ("separator='-'", dict(separator="-", lowercase=False, keep_zeros=False, max_length=None)),
+    ("separator='_', lowercase=true", dict(separator="_", lowercase=True, keep_zeros=False, max_length=None)),
+    ("separator='.', keep_zeros=true", dict(separator=".", lowercase=False, keep_zeros=True, max_length=None)),
+    ("separator='-', max_length=3", dict(separator="-", lowercase=False, keep_zeros=False, max_length=3)),
+    ("separator='.', lowercase=true, keep_zeros=false, max_length=5", dict(separator=".", lowercase=True, keep_zeros=False, max_length=5)),
+    ("separator='_', max_length=0", dict(separator="_", lowercase=False, keep_zeros=False, max_length=0)),
+    ("separator='.', max_length=1", dict(separator=".", lowercase=False, keep_zeros=False, max_length=1)),
+    ("max_length=2", dict(separator=None, lowercase=False, keep_zeros=False, max_length=2)),
+    ("max_length=0", dict(separator=None, lowercase=False, keep_zeros=False, max_length=0)),
+    ("max_length=7", dict(separator=None, lowercase=False, keep_zeros=False, max_length=7)),
+    ("lowercase=false, max_length=4", dict(separator=None, lowercase=False, keep_zeros=False, max_length=4)),
+    ("keep_zeros=true, max_length=3", dict(separator=None, lowercase=False, keep_zeros=True, max_length=3)),
+]
+TL, TR = "\u2039", "\u203a"
+
+
+def work_template(bins, strings):
+    """the template function sanitize(...) is the same contract seen through Tera"""
+    from .. import ron
+    pr = core.worker_probe(bins)
+    tpl = "".join("%s{{ sanitize(value=bumped_branch%s) }}%s" % (TL, (", " + a) if a else "", TR) for a, _ in TPL_COMBOS)
+    schema = dict(core=[("var", "Major")], extra_core=[], build=[])
+    bad = []
+    n = 0
+    for s_ in strings:
+        if TL in s_ or TR in s_ or "\x00" in s_:
+            continue
+        text = ron.zerv_to_ron(schema, dict(major=1, bumped_branch=s_, custom={}))
+        rep = pr.call(dict(op="template", template=tpl, ron=text))
+        if "panic" in rep:
+            bad.append(("panic@" + _loc(rep.get("at", "?")), "template sanitize panicked: %s" % rep["panic"], s_, None))
+            continue
+        out = rep.get("ok")
+        parts = []
+        if isinstance(out, str):
+            i = 0
+            while True:
+                a = out.find(TL, i)
+                if a < 0:
+                    break
+                b = out.find(TR, a + 1)
+                if b < 0:
+                    break
+                parts.append(out[a + 1:b])
+                i = b + 1
+        if len(parts) != len(TPL_COMBOS):
+            bad.append(("template-sanitize-failed", "template with documented sanitize() calls failed: %r" % (rep,), s_, None))
+            continue
+        for (args, cfg), got in zip(TPL_COMBOS, parts):
+            n += 1
+            v = judge(cfg, s_, got)
+            if v is not None:
+                bad.append((v[0], "template sanitize(value=%r, %s) = %r; %s" % (s_, args, got, v[1]), s_, got))
+    return dict(n=n, bad=bad)
+
+
 def enumerate_strings(maxlen):
     out = []
     for n in range(0, maxlen + 1):
@@ -190,9 +252,15 @@ def run(ctx):
         ctx.count("preset_calls", r["n"])
         for sig, why, s, out in r["bad"]:
             ctx.refute(sig, "%s sanitize(%r) = %r; %s" % (p, s, out, why), dict(kind="preset", preset=p, input=s), observed=out, expected=why)
+    tstr = [x for x in base if len(x) <= 4][::3] + rand[:1500] + ["feature/long-branch-name", "/hotfix/login", "build-00a7", "feature/new-login", "-00a", "_ab_00x"]
+    for r in core.pmap(work_template, [(ctx.bins, p) for p in core.split_even(tstr, 16)]):
+        ctx.evaluations += r["n"]
+        ctx.count("template_function_calls", r["n"])
+        for sig, why, s_, out in r["bad"]:
+            ctx.refute(sig, why, dict(kind="template", input=s_), observed=out)
     ctx.exhaustive = True
     ctx.rule = ("exhaustive strings over %r up to length %d x 96 settings (separator x lowercase x keep_zeros x max_length)%s, plus %d random "
-                "Unicode / hostile strings per setting, the integer sanitiser and the three named presets; every output re-sanitised "
+                "Unicode / hostile strings per setting, the integer sanitiser, the three named presets and the template function sanitize(...) in 17 argument combinations; every output re-sanitised "
                 "(idempotence). non-trivial = (setting, input) pairs whose output differs from the input" % (
                     "".join(ALPHABET), 5, "" if quick else " and the complete length-6 layer", 400 if quick else 4000))
     ctx.assumptions = ["the probe links the zerv library built from /repo's working tree; Sanitizer::sanitize is called directly",
@@ -210,6 +278,10 @@ def replay(ctx, doc):
         out = pr.call(req)["results"][0]
         v = judge(cfg, case["input"], out)
         print("sanitize(%r, %r) -> %r ; verdict: %s" % (case["input"], cfg, out, v))
+    elif case["kind"] == "template":
+        r = work_template(ctx.bins, [case["input"]])
+        v = r["bad"][0][:2] if r["bad"] else None
+        print(r["bad"][:3])
     elif case["kind"] == "uint":
         out = pr.call(dict(op="sanitize", preset="uint", strings=[case["input"]]))["results"][0]
         exp = ref.uint(case["input"])
